@@ -83,8 +83,10 @@ def cases(tier):
     # long histories (36-49 operations): deleted entities re-created under the same name and linked again, link lists
     # emptied and refilled, reopen in between; the reference model is compared after every step
     for h in explorer.soak_histories():
-        for hs in (None, ["A", "B"], ["A", "A", "B"]):
+        for hs in (None, ["A"], ["A", "B"], ["A", "A", "B"]):
             out.append({"seed": "mini", "ops": h, "h": None if hs is None else [hs[i % len(hs)] for i in range(len(h))], "single": True})
+    ops2, hs2 = explorer.soak_two_handles()
+    out.append({"seed": "mini", "ops": ops2, "h": hs2, "single": True})
     out.append({"mode": "dims11"})        # an array of rank 11: descriptors 1..11 in order, also after reopening
     # E1s: explicit-state BFS with de-duplication on the canonical state (mc/bfs.py)
     if tier == "quick":
